@@ -20,6 +20,7 @@ THEOREMS = [
     "MoreExec.BoolOp.C14_decided_once",
     "MoreExec.BoolOp.C14_output_cancel_fans_out",
     "MoreExec.BoolOp.C14_step_closed_form",
+    "MoreExec.BoolOp.C14_repeated_inputs",
 ]
 KERNELS = ["K5"]
 BUDGET = {"quick": 120, "thorough": 1200}
